@@ -305,6 +305,8 @@ def refactor(dirs):
             pth = os.path.join(d, "patch%d.diff" % k)
             if os.path.exists(pth):
                 todo.append((os.path.basename(d) + "-%d" % k, pth))
+        if os.path.exists(os.path.join(d, "patch.diff")):
+            todo.append((os.path.basename(d.rstrip("/")), os.path.join(d, "patch.diff")))
     with mp.Pool(8) as pool, open(os.path.join(RES, "refactor.jsonl"), "a") as f:
         for r in pool.imap_unordered(patch_one, todo):
             f.write(json.dumps(r) + "\n"); f.flush()
@@ -343,6 +345,39 @@ def seeds():
         print("  ", x)
 
 
+def tiebuild(dirs):
+    """for every patch (patchK.diff or patch.diff) under the given directories: regenerate the Lean files from the patched
+    copy INTO /verif/lean and build the whole project; restores the clean tree's files at the end. Sequential."""
+    os.makedirs(TMP, exist_ok=True)
+    gen = os.path.join(ROOT, "lean/Astits/Generated")
+    todo = []
+    for d in dirs:
+        for nm in ("patch.diff", "patch1.diff", "patch2.diff", "patch3.diff"):
+            pth = os.path.join(d, nm)
+            if os.path.exists(pth):
+                todo.append((os.path.basename(d.rstrip("/")) + ("" if nm == "patch.diff" else "-" + nm[5]), pth))
+    bad = 0
+    try:
+        for name, patch in todo:
+            wd = TMP + "/tie"
+            sh(["rsync", "-a", "--delete", "--exclude", ".git", "/repo/", wd + "/"])
+            rc, out = sh(["patch", "-p1", "-s", "-i", patch], cwd=wd)
+            if rc != 0:
+                print(name, "PATCH-FAILED"); bad += 1; continue
+            rc, out = sh([os.path.join(ROOT, "extract", "extract"), wd, gen], timeout=120)
+            if rc != 0:
+                print(name, "EXTRACT-FAILS-CLOSED", out.strip()[-200:]); bad += 1; continue
+            rc, out = sh(["lake", "build"], cwd=os.path.join(ROOT, "lean"), timeout=3600, env=dict(os.environ))
+            errs = [l for l in out.splitlines() if l.startswith("error")]
+            if errs:
+                bad += 1
+            print(name, "green" if not errs else "THEOREM-BROKEN " + " | ".join(errs[:3])[:400], flush=True)
+    finally:
+        sh([os.path.join(ROOT, "extract", "extract"), "/repo", gen], timeout=120)
+        sh(["lake", "build"], cwd=os.path.join(ROOT, "lean"), timeout=3600, env=dict(os.environ))
+    print("tie alarms:", bad, "of", len(todo))
+
+
 def verdict(r):
     vs = [v["verdict"] for v in r["props"].values()]
     if "replay" in vs: return "replay"
@@ -377,4 +412,5 @@ if __name__ == "__main__":
     elif c == "retest": retest(sys.argv[2], sys.argv[3].split(","))
     elif c == "refactor": refactor(sys.argv[2:])
     elif c == "seeds": seeds()
+    elif c == "tiebuild": tiebuild(sys.argv[2:])
     elif c == "report": report()
